@@ -9,6 +9,7 @@ transposition between eight consecutive blocks and four row vectors.
 import SkinnyVerif.Lemmas.AllConfigs
 import SkinnyVerif.Gen.Vec64LeafLanes
 import SkinnyVerif.Gen.Vec64Pieces
+import SkinnyVerif.Basic.Segments
 
 namespace SkinnyVerif.Lemmas
 open SkinnyVerif SkinnyVerif.Gen SkinnyVerif.Impl SkinnyVerif.Spec.Skinny
@@ -125,6 +126,9 @@ def laneRowsH (rows : BitVec 128 × BitVec 128 × BitVec 128 × BitVec 128) (j :
 syntax "vec64_ls" : tactic
 macro_rules
   | `(tactic| vec64_ls) => `(tactic|
-    (bv_bits 64 <;> simp [gen_unfold, packTh, laneRowsH, pack4h_getElem, lane, extractLsb'_extractLsb'_le]))
+    (simp only [gen_unfold, packTh, laneRowsH, pack4h, lane, Nat.reduceMul]
+     apply eq_of_lanes 8 8 (by decide) (by decide)
+     intro i hi
+     nat_cases i 8 <;> (simp only [lane, Nat.reduceMul, extractLsb'_extractLsb'_le, Nat.reduceAdd]; seg_windows; try (bv_bits 8 <;> simp))))
 
 end SkinnyVerif.Lemmas
